@@ -493,7 +493,8 @@ Lemma advance_window_RI r nb :
   RI r' /\ r_base r' = nb /\ r_wsize r' = r_wsize r /\
   (forall c, cboff r' c = cboff r c - pid_sub nb (r_base r)) /\
   (forall k, k < r_wsize r -> pid_sub nb (r_base r) + k < r_wsize r ->
-     same_but_marker (so r (pid_sub nb (r_base r) + k)) (so r' k)).
+     same_but_marker (so r (pid_sub nb (r_base r) + k)) (so r' k)) /\
+  eoff r' = eoff r - pid_sub nb (r_base r).
 Proof.
   intros I Hnb Hd Hnf. cbv zeta. remember (pid_sub nb (r_base r)) as delta eqn:Ed.
   pose proof (RI_Geo r I) as G. pose proof (RI_MK r I) as M0. destruct (ri_w r I) as (HW & H2W & Hdiv).
@@ -562,7 +563,7 @@ Proof.
     { unfold sidx. f_equal. replace (r_base r + K) with (r_base r + (K - r_wsize r) + r_wsize r) by lia. apply mod_W_W. exact HW. }
     rewrite E. destruct (B4 (sidx r (K - r_wsize r))) as (_ & _ & S3 & _). rewrite S3. rewrite <- Hsx1. fold (so r1 (K - r_wsize r)).
     rewrite (A6 (K - r_wsize r) ltac:(lia)). destruct (_ && _); cbn [clr sl_dflag]; apply Hnf; lia. }
-  split; [|split; [exact Hbase'|split; [exact Hw'|split; [exact Hcboff|]]]].
+  split; [|split; [exact Hbase'|split; [exact Hw'|split; [exact Hcboff|split; [|exact Heo']]]]].
   2:{ intros k Hk HK. rewrite Hso'. apply Hkeep; lia. }
   constructor.
   - rewrite Hw'. auto.
@@ -1015,7 +1016,7 @@ Lemma Dok_advance B r nb D :
   RI r -> nb < pow20 -> pid_sub nb (r_base r) <= r_wsize r -> (forall k, k < pid_sub nb (r_base r) -> sl_dflag (so r k) = false) ->
   Dok B r D -> RI (advance_window r nb) /\ Dok (B + pid_sub nb (r_base r)) (advance_window r nb) D /\ r_base (advance_window r nb) = nb.
 Proof.
-  intros I Hnb Hd Hnf HD. destruct (advance_window_RI r nb I Hnb Hd Hnf) as (I' & Bq & _ & Hcb & _).
+  intros I Hnb Hd Hnf HD. destruct (advance_window_RI r nb I Hnb Hd Hnf) as (I' & Bq & _ & Hcb & _ & _).
   split; [exact I'|]. split; [|exact Bq]. intros c A Hin. specialize (HD c A Hin). rewrite Hcb. lia.
 Qed.
 
